@@ -245,6 +245,46 @@ func (cr *crashRun) checkCut(k, torn int, st *Stats) (excluded bool) {
 		}
 		e.failf("%s: %s (model = decoded files):\n%s", where, what, strings.Join(d, "\n"))
 	}
+	// leftovers of the interrupted call (temporary files) must stay harmless for what the
+	// application does next: every object is written again with a much shorter value, read
+	// back, and decoded from disk by the walker
+	leftovers := 0
+	for _, name := range w.Others {
+		if strings.HasSuffix(name, ".tmp") || strings.HasPrefix(name, ".") {
+			leftovers++
+		}
+	}
+	if leftovers > 0 && e.cfg.Async == nil {
+		st.Add("cuts_with_leftover_temp_files", 1)
+		k := 0
+		for _, id := range e.allIDs {
+			k++
+			small := &Doc{}
+			for _, p := range e.cfg.UniquePaths() {
+				// distinct values on unique paths
+				setLeaf(small, p, valOfNorm(norm{cls: p.Class, i: int64(100 + k), u: uint64(100 + k), f: float64(100 + k), s: fmt.Sprint("u", k)}, p))
+			}
+			small.Initialize(id)
+			if err := db.InsertOrUpdate(small); err != nil {
+				if sod.IsUnique(err) {
+					continue
+				}
+				e.failf("%s: after the restart, writing object %s again fails: %v", where, e.tag(id), err)
+			}
+			got, err := db.GetByUUID(&Doc{}, id)
+			if err != nil {
+				e.failf("%s: after the restart, object %s was written again but cannot be read: %v", where, e.tag(id), err)
+			}
+			w2 := WalkDir(strings.Replace(e.collDir(), e.root, dst, 1))
+			wf, ok := w2.Objects[id]
+			if !ok {
+				e.failf("%s: after the restart, object %s was written again but has no file", where, e.tag(id))
+			}
+			if d2, derr := wf.Doc(); derr != nil || canon(d2) != canon(got) {
+				e.failf("%s: after the restart, object %s was written again; its file decodes to %v (err=%v), the handle reads %s", where, e.tag(id), d2 != nil, derr, canon(got))
+			}
+		}
+	}
 	// synchronous mode: acknowledged ops are reflected; the interrupted op is
 	// applied to each object entirely or not at all
 	if e.cfg.Async == nil {
